@@ -110,7 +110,7 @@ func VerifWrapRef() {
 	zzverif.Cover("aeskw_wrap_done")
 }
 
-//verif:harness prop=C03 name=aeskw_unwrap_rfc3394 unwind=40 solver=cvc5-bv
+//verif:harness prop=C03 name=aeskw_unwrap_rfc3394 unwind=40 solver=cvc5-bv qtimeout=90
 func VerifUnwrapRef() {
 	zzverif.UFInverse("E", "D")
 	n := zzverif.Choose("n", vMaxN()) + 1
